@@ -1,12 +1,13 @@
 (* C01: the pipeline the correspondence run executes as its model column, and about which
-   C01_request_fidelity_reference_reader / C01_response_fidelity_reference_reader speak:
+   C01_request_fidelity / C01_response_fidelity speak - every layer is the model of h3's own code:
      header mapping  = the C12 model (Model/Headers.v over Model/HttpCrate.v)
-     field sections  = the reference coding of Model/EndToEndRef.v (stand-in until C11's round trip is pinned)
+     field sections  = the C11 model of qpack::encode_stateless / decode_stateless (Model/QpackStateless.v)
      write side      = the C14 WriteBuf model drained under an acceptance script
-     receive side    = the incremental reference reader of Model/EndToEndRef.v
+     receive side    = the C02 + C03 models of FrameStream and RequestStream (server role for the request, client
+                       role for the response) under a history of arrivals and calls
    plus the construction of the `http` values from the strings of a case line (what Uri::try_from / HeaderName::from_bytes
    do: parse the path-and-query, lower-case the field names).  No proofs in this file. *)
-From H3V Require Import Base.Bytes Model.HttpCrate Model.Headers Model.EndToEnd Model.EndToEndLayers Model.EndToEndRef.
+From H3V Require Import Base.Bytes Model.HttpCrate Model.Headers Model.EndToEnd Model.EndToEndLayers Model.RequestStream.
 
 Definition lower_ascii (b : N) : N := if (65 <=? b) && (b <=? 90) then b + 32 else b.
 (* HeaderMap::append in the order given, names through HeaderName::from_bytes *)
@@ -27,22 +28,22 @@ Definition h3_grant : N := 2 ^ 62.
 
 Definition h3_request_outcome (grease : option N) (m : message c12_request hmap) (ks sizes polls : list N)
   : option (list (aevent request hmap)) :=
-  match wire c12_request hmap c12_fields_of_request c12_fields_of_trailers ref_encode_section c14_wire_write
+  match wire c12_request hmap c12_fields_of_request c12_fields_of_trailers c11_encode_section c14_wire_write
              grease m (ks ++ repeat h3_grant (2 * (length (m_pieces m) + 3))) with
   | None => None
   | Some b =>
-      Some (receiver_outcome request hmap c12_request_of_fields c12_trailers_of_fields ref_decode_section
-              rstate ref_init ref_arrive ref_fin ref_poll
-              (mk_history sizes polls (2 * length (m_pieces m) + 10) b))
+      Some (receiver_outcome request hmap c12_request_of_fields c12_trailers_of_fields c11_decode_section
+              c03_state c03_init c03_arrive c03_fin (c03_poll RServer)
+              (mk_history sizes polls (length sizes + 2 * length (m_pieces m) + 10) b))
   end.
 
 Definition h3_response_outcome (grease : option N) (m : message c12_response hmap) (ks sizes polls : list N)
   : option (list (aevent response hmap)) :=
-  match wire c12_response hmap c12_fields_of_response c12_fields_of_trailers ref_encode_section c14_wire_write
+  match wire c12_response hmap c12_fields_of_response c12_fields_of_trailers c11_encode_section c14_wire_write
              grease m (ks ++ repeat h3_grant (2 * (length (m_pieces m) + 3))) with
   | None => None
   | Some b =>
-      Some (receiver_outcome response hmap c12_response_of_fields c12_trailers_of_fields ref_decode_section
-              rstate ref_init ref_arrive ref_fin ref_poll
-              (mk_history sizes polls (2 * length (m_pieces m) + 10) b))
+      Some (receiver_outcome response hmap c12_response_of_fields c12_trailers_of_fields c11_decode_section
+              c03_state c03_init c03_arrive c03_fin (c03_poll RClient)
+              (mk_history sizes polls (length sizes + 2 * length (m_pieces m) + 10) b))
   end.
